@@ -292,6 +292,49 @@ def main(ck, tier, w):
         ck.distinct(('sigkill', i))
         if probs:
             ck.violation('SIGKILL run %d (exit %d): %s' % (i, rc, '; '.join(sorted(set(probs))[:3])), {'fault': {'sigkill_run': i}, 'tags': []})
+    # ---- start-up failures (MC_Startup): refused arguments, unwritable dump folder, missing data directory / index ----
+    sres = run.tlc('MC_Fault', 'MC_Startup', workers=4, timeout=300)
+    ck.add_tlc(sres, 'MC_Startup')
+    ck.require_actions(sres, ['RejectArgs', 'CreateTmpFails', 'OpenStorageFails'], 'MC_Startup')
+
+    def startup(obs):
+        cb, st = obs['cb'], obs['startup']
+        dd = clone(d.path)
+        dump = w.sub('out')
+        filecb = cb in FILECB
+        kw = {}
+        if st == 'badrange':
+            kw = {'start': 3, 'end': 2}
+        if st == 'nodir':
+            shutil.rmtree(dd)
+        if st == 'noindex':
+            shutil.rmtree(os.path.join(dd, 'index'))
+            with open(os.path.join(dd, 'index'), 'w') as f:
+                f.write('not a database')
+        if st != 'nodump':
+            os.makedirs(dump)
+        r = run.run_parser(dd, cb, dump=dump if filecb else None, mkdump=False, **kw)
+        shutil.rmtree(dd, ignore_errors=True)
+        probs = []
+        cls = 0 if r.rc == 0 else 1 if r.rc in (1, 2, 101) else r.rc
+        if cls != obs['exit']:
+            probs.append('exit status %d, specification says class %d: %s' % (r.rc, obs['exit'], r.stderr[-200:]))
+        finals = [f for f in r.listing if f.endswith('.csv')]
+        tmps = [f for f in r.listing if f.endswith('.tmp')]
+        if obs['exit'] != 0 and finals:
+            probs.append('final-named files after a failed start-up: %s' % finals)
+        if filecb and len(tmps) != obs['tmps'] and obs['exit'] != 0:
+            probs.append('%d tmp files exist, specification says %d' % (len(tmps), obs['tmps']))
+        if obs['exit'] != 0 and any(e['ev'] == 'deliver' for e in r.events):
+            probs.append('blocks delivered although start-up failed')
+        return obs, probs, r
+    for obs, probs, r in chains.pmap(startup, sres.replay):
+        ck.evals()
+        ck.traces()
+        ck.distinct(('startup', obs['cb'], obs['startup']))
+        if probs:
+            ck.violation('start-up condition %s with %s: %s' % (obs['startup'], obs['cb'], '; '.join(probs)),
+                         {'scenario': obs, 'observed': r.brief(), 'tags': []})
     ck.assumptions += ['input-fault scenarios keep at least one other readable blk file (with none the program stops before any '
                        'height exists to report)', 'RLIMIT_FSIZE with SIGXFSZ ignored stands for "a write fails at byte L" (EFBIG)',
                        'rename failures are outside the statement']
